@@ -10,6 +10,7 @@ import (
 	"fmt"
 	"strings"
 	"testing"
+	"unicode/utf8"
 
 	"github.com/theQRL/go-qrllib/dilithium"
 	"github.com/theQRL/go-qrllib/misc"
@@ -50,13 +51,43 @@ type call struct {
 	Class  string `json:"class,omitempty"`
 }
 
+// phrases that are not valid UTF-8 travel as hex in replay files
+func (c call) MarshalJSON() ([]byte, error) {
+	type plain call
+	if utf8.ValidString(c.Phrase) {
+		return json.Marshal(plain(c))
+	}
+	raw := pu.HB(c.Phrase)
+	c.Phrase = ""
+	return json.Marshal(struct {
+		plain
+		PhraseHex pu.HB `json:"phrase_hex"`
+	}{plain(c), raw})
+}
+
+func (c *call) UnmarshalJSON(d []byte) error {
+	type plain call
+	var v struct {
+		plain
+		PhraseHex pu.HB `json:"phrase_hex"`
+	}
+	if err := json.Unmarshal(d, &v); err != nil {
+		return err
+	}
+	*c = call(v.plain)
+	if v.PhraseHex != nil {
+		c.Phrase = string(v.PhraseHex)
+	}
+	return nil
+}
+
 var mayRefuse = map[string]bool{"xmss.Verify": true, "xmss.VerifyW": true, "xmss.GetXMSSAddressFromPK": true, "xmss.GetLegacyXMSSAddressFromPK": true,
-	"misc.MnemonicToSeedBin": true, "misc.MnemonicToExtendedSeedBin": true, "xmss.IsValidXMSSAddress": true, "xmss.IsValidLegacyXMSSAddress": true}
+	"misc.MnemonicToSeedBin": true, "misc.MnemonicToExtendedSeedBin": true, "dilithium.NewDilithiumFromMnemonic": true, "xmss.IsValidXMSSAddress": true, "xmss.IsValidLegacyXMSSAddress": true}
 
 // run executes the call and judges the outcome. guard = which answer was given (for the evidence).
 func run(r *ev.Recorder, c *call) (key, msg, guard string) {
 	msg0, sig0, pk0, addr0, phrase0 := append([]byte{}, c.Msg...), append([]byte{}, c.Sig...), append([]byte{}, c.PK...), append([]byte{}, c.Addr...), strings.Clone(c.Phrase)
-	if len(c.Msg)+len(c.Sig)+len(c.Phrase) < 1<<16 && (strings.Contains(c.Entry, "Verify") || strings.HasPrefix(c.Entry, "misc.") || c.Entry == "dilithium.Open") {
+	if len(c.Msg)+len(c.Sig)+len(c.Phrase) < 1<<16 && (strings.Contains(c.Entry, "Verify") || strings.HasPrefix(c.Entry, "misc.") || c.Entry == "dilithium.Open" || c.Entry == "dilithium.NewDilithiumFromMnemonic") {
 		r.Pending(c)
 		defer r.Done()
 	}
@@ -116,6 +147,12 @@ func run(r *ev.Recorder, c *call) (key, msg, guard string) {
 		case "misc.MnemonicToExtendedSeedBin":
 			x := misc.MnemonicToExtendedSeedBin(c.Phrase)
 			resLen = len(x)
+		case "dilithium.NewDilithiumFromMnemonic":
+			// the wallet constructor that decodes a phrase: a key, an error or an explicit refusal
+			d, err := dilithium.NewDilithiumFromMnemonic(c.Phrase)
+			if err == nil && d != nil {
+				resLen = 48
+			}
 		default:
 			panic(fmt.Errorf("harness: unknown entry %q", c.Entry))
 		}
@@ -136,7 +173,7 @@ func run(r *ev.Recorder, c *call) (key, msg, guard string) {
 		if i := strings.Index(guard, " = "); i > 0 && strings.HasPrefix(o.Text, "word count") { // "word count = 33 must be even"
 			guard = "refused: word count = N must be even"
 		}
-	} else if c.Entry == "dilithium.Open" || strings.HasPrefix(c.Entry, "misc.") || strings.Contains(c.Entry, "AddressFromPK") {
+	} else if c.Entry == "dilithium.Open" || strings.HasPrefix(c.Entry, "misc.") || strings.Contains(c.Entry, "AddressFromPK") || c.Entry == "dilithium.NewDilithiumFromMnemonic" {
 		guard = fmt.Sprintf("returned %d bytes", resLen)
 		if resLen > 0 && c.Entry == "dilithium.Open" {
 			guard = "returned the message"
@@ -323,7 +360,12 @@ func buildDil(entry, lenKind, k int, hintKind int, seed uint64, honest []byte, p
 	body := append([]byte{}, honest...)
 	const offHint, offCnt = 32 + 7*640, 32 + 7*640 + 75
 	cls := ""
-	switch hintKind % 9 {
+	switch hintKind % 10 {
+	case 9:
+		// a challenge seed whose expansion consumes unusually many stream bytes (found offline, see pu.HungryChallengeSeeds)
+		cs, nb := pu.HungryChallengeSeed(int(seed % 1000))
+		copy(body, cs)
+		cls = fmt.Sprintf("challenge-seed-consuming-%d-stream-bytes", nb)
 	case 8:
 		body = pu.HintChain(body, int(seed%8), byte(76+(seed>>8)%180), seed>>16)
 		cls = "count-chain-past-the-section"
@@ -395,7 +437,7 @@ func buildDil(entry, lenKind, k int, hintKind int, seed uint64, honest []byte, p
 
 func TestDilithiumHostile(t *testing.T) {
 	r := ev.New(t, prop, "TestDilithiumHostile")
-	r.Rule("rapid: dilithium.Verify and Open with sealed messages of length {0,1,2, CryptoBytes-1, CryptoBytes, CryptoBytes+1, arbitrary shorter, full}, hint sections with every count byte value 0..255 and position bytes 0..255, the strictly-increasing count chain that walks a guard-less decoder past the end of the section, garbage / all-zero / all-0xFF signatures, random and honest public keys; oracle: returns (false / nothing / the message), NEVER panics, buffers unchanged; non-trivial = an input whose sealed length is at least CryptoBytes (reaches unpacking), distinct by content")
+	r.Rule("rapid: dilithium.Verify and Open with sealed messages of length {0,1,2, CryptoBytes-1, CryptoBytes, CryptoBytes+1, arbitrary shorter, full}, hint sections with every count byte value 0..255 and position bytes 0..255, the strictly-increasing count chain that walks a guard-less decoder past the end of the section, challenge seeds (first 32 bytes) whose expansion consumes 97..102 stream bytes instead of the usual ~75 (found by an offline search), garbage / all-zero / all-0xFF signatures, random and honest public keys; oracle: returns (false / nothing / the message), NEVER panics, buffers unchanged; non-trivial = an input whose sealed length is at least CryptoBytes (reaches unpacking), distinct by content")
 	d, err := pu.DilKey(pu.DetBytes(r.SubSeed("key"), 48))
 	r.Health(err == nil, "keygen")
 	pk := d.GetPK()
@@ -408,7 +450,7 @@ func TestDilithiumHostile(t *testing.T) {
 		if rapid.IntRange(0, 3).Draw(rt, "rndpk") == 0 {
 			usePK = pu.DetBytes(rapid.Uint64().Draw(rt, "pk"), dilithium.CryptoPublicKeyBytes)
 		}
-		c := buildDil(rapid.IntRange(0, 1).Draw(rt, "entry"), rapid.IntRange(0, 5).Draw(rt, "lenKind"), rapid.IntRange(0, 9999).Draw(rt, "k"), rapid.IntRange(0, 8).Draw(rt, "hintKind"),
+		c := buildDil(rapid.IntRange(0, 1).Draw(rt, "entry"), rapid.IntRange(0, 5).Draw(rt, "lenKind"), rapid.IntRange(0, 9999).Draw(rt, "k"), rapid.IntRange(0, 9).Draw(rt, "hintKind"),
 			rapid.Uint64().Draw(rt, "seed"), hs[:], usePK, len(m))
 		if strings.HasPrefix(c.Class, "honest") && c.Entry == "dilithium.Verify" {
 			c.Msg = m
@@ -484,7 +526,7 @@ func buildPhrase(kind int, seed uint64, n int) string {
 			ws = append(ws, word())
 		}
 		if n > 0 {
-			ws[next(n)] = []string{"", "Aback", "aback\x00", "été", "zzzz", "a b", "\t"}[next(7)]
+			ws[next(n)] = []string{"", "Aback", "aback\x00", "été", "zzzz", "a b", "\t", "abAck", "ab`ck", "ab{ck", "zz", "{", "~~~~~~", "a", "zurichz", "ab\x80ck", "ab\xe1ck"}[next(17)]
 		}
 		return strings.Join(ws, " ")
 	case 5: // other separators: everywhere, or at one / two / three places between otherwise blank-separated words
@@ -540,7 +582,7 @@ func buildPhrase(kind int, seed uint64, n int) string {
 
 func TestMnemonicHostile(t *testing.T) {
 	r := ev.New(t, prop, "TestMnemonicHostile")
-	r.Rule("rapid: misc.MnemonicToSeedBin / MnemonicToExtendedSeedBin on phrases of 0..100 list words (incl. 31..35), empty, only spaces, arbitrary bytes / invalid UTF-8, foreign words, other separators, 10^3..10^5-word phrases, one huge token; oracle: 48/51 bytes or an explicit string panic, never a runtime fault (e.g. an index past the result buffer); non-trivial = a phrase with an even number of list words (passes the count and lookup guards), distinct by content")
+	r.Rule("rapid: misc.MnemonicToSeedBin / MnemonicToExtendedSeedBin / dilithium.NewDilithiumFromMnemonic on phrases of 0..100 list words (incl. 31..35), empty, only spaces, arbitrary bytes / invalid UTF-8, foreign words, other separators, 10^3..10^5-word phrases, one huge token; oracle: 48/51 bytes or an explicit string panic, never a runtime fault (e.g. an index past the result buffer); non-trivial = a phrase with an even number of list words (passes the count and lookup guards), distinct by content")
 	checks := r.PerShard(r.Pick(6000, 200000))
 	r.Rapid(t, "mn", checks, func(rt *rapid.T) {
 		kind := rapid.IntRange(0, 11).Draw(rt, "kind")
@@ -548,7 +590,7 @@ func TestMnemonicHostile(t *testing.T) {
 		if (kind == 6 || kind == 7) && rapid.IntRange(0, 9).Draw(rt, "long") != 0 {
 			kind = 0
 		}
-		c := &call{Entry: rapid.SampledFrom([]string{"misc.MnemonicToSeedBin", "misc.MnemonicToExtendedSeedBin"}).Draw(rt, "entry"), Phrase: buildPhrase(kind, rapid.Uint64().Draw(rt, "seed"), n), Class: fmt.Sprintf("kind-%d", kind)}
+		c := &call{Entry: rapid.SampledFrom([]string{"misc.MnemonicToSeedBin", "misc.MnemonicToSeedBin", "misc.MnemonicToExtendedSeedBin", "misc.MnemonicToExtendedSeedBin", "dilithium.NewDilithiumFromMnemonic"}).Draw(rt, "entry"), Phrase: buildPhrase(kind, rapid.Uint64().Draw(rt, "seed"), n), Class: fmt.Sprintf("kind-%d", kind)}
 		guard := judge(rt, r, c)
 		if strings.HasPrefix(guard, "returned") || strings.Contains(guard, "output size") {
 			r.NonTrivial(c.Entry, c.Phrase)
